@@ -253,7 +253,7 @@ def schedule(dc, sc, res, rng, label):
     nprod, ncons = rng.randrange(1, 3), rng.randrange(1, 3)
     n = nprod + ncons
     caches = [setup if shared else dc.Cache(d, timeout=0) for _ in range(n)]
-    sch = Sched(rng, clock, strategy=rng.choice(['random', 'preempt', 'random']),
+    sch = Sched(rng, clock, strategy=rng.choice(['random', 'preempt', 'random', 'ops']),
                 preempt_points={rng.randrange(0, 120) for _ in range(3)})
     rec = Recorder(sch)
     big = rng.random() < 0.5
@@ -404,7 +404,7 @@ def timed_schedule(dc, sc, res, rng, label):
     nprod, ncons = rng.randrange(1, 3), rng.randrange(1, 4)
     n = nprod + ncons
     caches = [setup if shared else dc.Cache(d, timeout=0) for _ in range(n)]
-    sch = Sched(rng, clock, strategy=rng.choice(['random', 'preempt', 'random']),
+    sch = Sched(rng, clock, strategy=rng.choice(['random', 'preempt', 'random', 'ops']),
                 preempt_points={rng.randrange(0, 80) for _ in range(3)})
     rec = Recorder(sch)
 
